@@ -7,6 +7,8 @@
 
 #include <models/ModelBuilder.h>
 
+#include <stdexcept>
+
 namespace opensmt {
 class IDLSolver : public STPSolver<SafeInt> {
 public:
@@ -16,7 +18,10 @@ public:
 template<>
 SafeInt Converter<SafeInt>::getValue(Number const & val) {
     assert(val.isInteger());
-    return SafeInt(static_cast<ptrdiff_t>(val.get_d()));
+    // Convert exactly: going through double loses precision above 2^53 and is undefined beyond the range of ptrdiff_t
+    mpz_class const num = val.getMpq().get_num();
+    if (not num.fits_slong_p()) { throw std::overflow_error("Constant does not fit the integer difference logic solver"); }
+    return SafeInt(static_cast<ptrdiff_t>(num.get_si()));
 }
 
 template<>
